@@ -23,6 +23,9 @@ def scenarios():
         add("lookup-ok-" + api, [dict(op="resolve", path="a/sub/f", **A), dict(op="resolve", path="la/sub/../sub/f", **A),
                                  dict(op="resolve", path="la", nofollow=True, **A), dict(op="resolve", path="labs/f", **A),
                                  dict(op="resolve", path="/a/../a/./sub//f", **A)])
+        # spellings that end at (or are clamped at) the root: the handle handed back is the walk's own copy of the root
+        add("lookup-root-" + api, [dict(op="resolve", path="..", **A), dict(op="resolve", path="a/../..", **A), dict(op="resolve", path="/", **A),
+                                   dict(op="resolve", path=".", nofollow=True, **A), dict(op="resolve", path="a/esc", **A), dict(op="resolve", path="a/sub/../../../..", nofollow=True, **A)])
         add("lookup-err-" + api, [dict(op="resolve", path="nonexist", **A), dict(op="resolve", path="a/esc/secret", **A),
                                   dict(op="resolve", path="f/x", **A), dict(op="resolve", path="dang", **A)])
         add("open-" + api, [dict(op="open", path="f", oflags=RD, **A), dict(op="open", path="a", oflags=RD | O["DIRECTORY"], **A),
